@@ -16,7 +16,7 @@ import cppgen
 import fk
 import gen
 
-RULE = ("seeded valid definitions (string-keyed readings; a separate Symbol-keyed stream) plus every single structural fault K1-K18 (quick: "
+RULE = ("seeded valid definitions (string-keyed readings; a separate Symbol-keyed stream) plus every single structural fault K1-K19 (quick: "
         "one random position per kind and definition; thorough: every position, and pairs) through ui.Model, python.compile, "
         "python.compile_ekf, cpp.compile, cpp.compile_ekf; accepted / refused compared with the property (valid <=> accepted) and with "
         "the Lean accepts-functions; for the C++ entry points a refusal must leave no header/source behind; distinct by (definition, fault, "
@@ -27,7 +27,7 @@ PARTIAL = ["extra_validation (nonlinsolve) is not exercised"]
 
 KINDS_UI = ["K1", "K2", "K3", "K4", "K5", "K6"]
 KINDS_CAL = ["K7", "K8", "K9"]
-KINDS_EKF = ["K10", "K10b", "K11a", "K11b", "K11c", "K12", "K13", "K13b", "K14", "K15", "K16", "K17", "K18"]
+KINDS_EKF = ["K10", "K10b", "K11a", "K11b", "K11c", "K12", "K12b", "K12c", "K13", "K13b", "K14", "K15", "K16", "K17", "K18", "K19"]
 
 
 class Spec:
@@ -43,6 +43,7 @@ class Spec:
         self.sensors = {k: dict(rd) for k, rd in d.sensors.items()}
         self.sensor_noise = {k: {r: float(v) for r, v in rd.items()} for k, rd in sensor.items()}
         self.reading_syms = reading_syms
+        self.noise_dups = []     # (sensor key, reading name, value): a SECOND noise entry for that reading, keyed by the other key type
         self.dt = d.dt
 
     def vdef(self):
@@ -52,7 +53,7 @@ class Spec:
             "noise": [["sym" if k == "sym" else "other", n, core.frac_str(__import__("fractions").Fraction(v))] for k, n, v in self.noise],
             "sensors": [{"key": k, "readings": [[r, sorted(s.name for s in sympy.sympify(e).free_symbols)] for r, e in rd.items()]}
                         for k, rd in self.sensors.items()],
-            "sensorNoise": [[k, list(rd)] for k, rd in self.sensor_noise.items()],
+            "sensorNoise": [[k, list(rd) + [r for k2, r, _ in self.noise_dups if k2 == k]] for k, rd in self.sensor_noise.items()],
         }
 
     def describe(self):
@@ -60,7 +61,8 @@ class Spec:
                 "update": {k: str(v) for k, v in self.update.items()}, "calibration_map": list(self.calmap),
                 "process_noise": [(k, n, v) for k, n, v in self.noise],
                 "sensors": {k: {r: str(e) for r, e in rd.items()} for k, rd in self.sensors.items()},
-                "sensor_noise": {k: list(rd) for k, rd in self.sensor_noise.items()}, "reading_keys": "Symbol" if self.reading_syms else "str"}
+                "sensor_noise": {k: {r: v for r, v in rd.items()} for k, rd in self.sensor_noise.items()},
+                "sensor_noise_second_entry_other_key_type": list(self.noise_dups), "reading_keys": "Symbol" if self.reading_syms else "str"}
 
     # ---- real objects
     def ui_model(self, container):
@@ -80,9 +82,12 @@ class Spec:
                 noise[(Symbol(a), Symbol(b))] = v
             else:
                 noise[Symbol(name) if kind == "sym" else name] = v
+        sn = {k: {self.rk(r): v for r, v in rd.items()} for k, rd in self.sensor_noise.items()}
+        for k, r, v in self.noise_dups:
+            sn[k][r if self.reading_syms else Symbol(r)] = v
         return dict(process_noise=noise,
                     sensor_models={k: {self.rk(r): e for r, e in rd.items()} for k, rd in self.sensors.items()},
-                    sensor_noises={k: {self.rk(r): v for r, v in rd.items()} for k, rd in self.sensor_noise.items()},
+                    sensor_noises=sn,
                     calibration_map={Symbol(k): v for k, v in self.calmap.items()})
 
 
@@ -131,6 +136,16 @@ def inject(rng, spec, kind, pos=None):
             i = s.noise.index(pick(s.noise)); s.noise[i] = ("str", s.noise[i][1], s.noise[i][2])
         elif kind == "K12":
             i = s.noise.index(pick(s.noise)); s.noise[i] = ("sym", s.noise[i][1], -abs(s.noise[i][2]) - 0.125)
+        elif kind == "K12b":
+            # negative, but tiny
+            i = s.noise.index(pick(s.noise)); s.noise[i] = ("sym", s.noise[i][1], -rng.choice([2.0 ** -40, 2.0 ** -34, 1e-10, 3e-16]))
+        elif kind == "K12c":
+            # negative, small next to another control's large noise
+            if len(s.noise) < 2:
+                return None
+            i = s.noise.index(pick(s.noise)); j = (i + 1) % len(s.noise)
+            s.noise[i] = ("sym", s.noise[i][1], -rng.choice([1e-3, 0.5, 2.0 ** -7]))
+            s.noise[j] = ("sym", s.noise[j][1], rng.choice([1e7, 2.0 ** 31, 1e10]))
         elif kind in ("K13", "K14"):
             key = pick(sorted(s.sensors)); r = pick(sorted(s.sensors[key]))
             extra = Symbol(pick(s.control)) if kind == "K13" else Symbol(fresh(rng, s))
@@ -147,6 +162,16 @@ def inject(rng, spec, kind, pos=None):
             key = pick([k for k in sorted(s.sensor_noise) if len(s.sensor_noise[k]) >= 1]); del s.sensor_noise[key][pick(sorted(s.sensor_noise[key]))]
         elif kind == "K18":
             key = pick(sorted(s.sensor_noise)); r = pick(sorted(s.sensor_noise[key])); v = s.sensor_noise[key].pop(r); s.sensor_noise[key][fresh(rng, s)] = v
+        elif kind == "K19":
+            # a reading's noise entry is missing; a second entry for ANOTHER reading (same name, the other key type) stands in
+            # its place, so the count is right
+            keys = [k for k in sorted(s.sensor_noise) if len(s.sensor_noise[k]) >= 2]
+            if not keys:
+                return None
+            key = pick(keys); rs = sorted(s.sensor_noise[key])
+            gone = pick(rs); kept = [r for r in rs if r != gone][0]
+            del s.sensor_noise[key][gone]
+            s.noise_dups.append((key, kept, 2.0))
         else:
             return None
     except (IndexError, ValueError, KeyError):
@@ -157,7 +182,7 @@ def inject(rng, spec, kind, pos=None):
 def positions(spec, kind):
     n = {"K1": len(spec.state), "K2": len(spec.state), "K3": len(spec.control), "K4": len(spec.update), "K6": len(spec.update),
          "K7": len(spec.calmap), "K9": len(spec.calmap), "K10": len(spec.noise), "K11a": len(spec.state), "K11c": len(spec.noise),
-         "K12": len(spec.noise), "K10b": len(spec.noise), "K13": len(spec.sensors), "K13b": len(spec.sensors), "K14": len(spec.sensors), "K15": len(spec.sensor_noise),
+         "K12": len(spec.noise), "K12b": len(spec.noise), "K12c": len(spec.noise), "K19": len(spec.sensor_noise), "K10b": len(spec.noise), "K13": len(spec.sensors), "K13b": len(spec.sensors), "K14": len(spec.sensors), "K15": len(spec.sensor_noise),
          "K17": len(spec.sensor_noise), "K18": len(spec.sensor_noise)}.get(kind, 1)
     return range(max(n, 0))
 
